@@ -992,7 +992,8 @@ C04_THEOREMS = ["fwd_first_window", "fwd_windows_tile", "rev_first_window", "rev
                 "readInfo_after_open_block_size_independent",
                 "residue_loop_closed_form", "header_fasta_closed_form", "read_one_record_closed_form", "open_is_openFasta",
                 "read_all_eq_parseFasta", "read_all_eq_specFasta", "read_all_block_size_independent",
-                "readInfo_closed_form", "readSequence_closed_form", "read_readInfo_readSequence_agree"]
+                "readInfo_closed_form", "readSequence_closed_form", "read_readInfo_readSequence_agree",
+                "windows_eq_read", "windows_concat_eq_read", "windows_coords", "read_nres_closed_form"]
 C02_THEOREMS = ["loadbuf_total", "nextchar_total", "nextchar_no_fault", "seebuf_total", "inmaps_agree",
                 "read_total", "read_no_fault", "readInfo_total", "readSequence_total", "read_all_total"]
 C07_THEOREMS = ["findSubseq_absent", "findSubseq_out_of_range", "fetchSubseq_absent", "fetchSubseq_start_out_of_range", "findSubseq_cases",
